@@ -129,6 +129,15 @@ def law_tree(d):
         fails.append(('eq.refl', 'two structurally identical trees are not equal: %s' % e, ('eq.refl', d)))
     elif hash(e) != hash(e2):
         fails.append(('eq.hash', 'equal trees hash differently: %s' % e, ('eq.hash', d)))
+    # equal => same hash also for trees that differ only in attributes __eq__ does not look at (is_term of an identifier)
+    e3 = build(d)
+    for x in nodes(e3):
+        if x.__class__.__name__ == 'ExprId': x.is_term = not x.is_term
+    try:
+        if e == e3 and hash(e) != hash(e3):
+            fails.append(('eq.hash', 'trees that compare equal (identifiers differ only in is_term) hash differently: %s' % e, ('eq.hash', d)))
+    except Exception as ex:
+        fails.append(('eq.hash', 'comparison raised %s' % ex, ('eq.hash', d)))
     # copy
     c = e.copy()
     if undesc(c) != d or not (c == e):
